@@ -269,7 +269,8 @@ fn outline() -> BoxedStrategy<Vec<(f32, f32)>> {
 fn win_b(i: usize) -> BoxedStrategy<WinB> {
     (
         any::<u16>(),
-        (dec2(0.0, 1.0), dec2(0.0, 1.0), dec2(0.2, 0.9), dec2(0.2, 0.9)),
+        // one window in ten sits in the lower-left corner of its wall (offset 0, 0: a glazed door)
+        prop_oneof![9 => (dec2(0.0, 1.0), dec2(0.0, 1.0), dec2(0.2, 0.9), dec2(0.2, 0.9)), 1 => (Just(0.0f32), Just(0.0f32), dec2(0.2, 0.9), dec2(0.2, 0.9))],
         prop_oneof![2 => Just(0.0f32), 1 => dec2(0.05, 0.6)],
         opt(4, (dec2(0.0, 0.5), dec2(0.0, 0.5), dec2(0.3, 2.0), dec2(0.2, 1.5), prop_oneof![Just(90.0f32), dec2(30.0, 120.0)]).boxed()),
         opt(6, (dec2(0.0, 0.5), dec2(0.0, 0.5), dec2(0.2, 1.0), dec2(0.5, 2.0)).boxed()),
@@ -461,7 +462,7 @@ pub fn bld() -> BoxedStrategy<Bld> {
         .prop_map(|v| v.into_iter().enumerate().map(|(i, (conductance, shading_coef, group))| GlassB { name: format!("Vidrio {}", i + 1), conductance, shading_coef, group }).collect::<Vec<_>>());
     let frames = proptest::collection::vec((dec2(0.8, 7.0), dec2(0.1, 0.95), dec2(0.02, 0.2)), 1..=2)
         .prop_map(|v| v.into_iter().enumerate().map(|(i, (conduct, abs, width))| FrameB { name: format!("Marco {}", i + 1), conduct, abs, width }).collect::<Vec<_>>());
-    let gaps = proptest::collection::vec((any::<u16>(), any::<u16>(), dec2(0.0, 100.0), prop_oneof![Just(3.0f32), Just(9.0), Just(27.0), Just(50.0)], opt(1, dec2(0.0, 50.0)), opt(1, dec2(0.02, 1.0))), 1..=3)
+    let gaps = proptest::collection::vec((any::<u16>(), any::<u16>(), prop_oneof![6 => dec2(0.0, 100.0), 1 => Just(0.0f32), 1 => Just(100.0f32)], prop_oneof![Just(3.0f32), Just(9.0), Just(27.0), Just(50.0)], opt(1, dec2(0.0, 50.0)), opt(1, dec2(0.02, 1.0))), 1..=3)
         .prop_map(|v| v.into_iter().enumerate().map(|(i, (glass, frame, percentage, inf_coef, delta_u, trans_july))| GapB { name: format!("Hueco {}", i + 1), glass, frame, percentage, inf_coef, delta_u, trans_july }).collect::<Vec<_>>());
     let days = proptest::collection::vec(prop_oneof![1 => dec2(0.0, 1.0).prop_map(|v| vec![v]), 3 => proptest::collection::vec(prop_oneof![3 => Just(0.0f32), 6 => dec2(0.01, 1.0), 2 => dec3(0.001, 1.0)], 24)], 1..=4)
         .prop_map(|v| v.into_iter().enumerate().map(|(i, values)| DayB { name: format!("HD_{}", i + 1), values }).collect::<Vec<_>>());
